@@ -604,6 +604,48 @@ func moveSummaryOf(c *core.Ctx, g *core.Func) *moveSummary {
 		}
 		return true
 	})
+	// delegation: the index write and the swap-remove may be handed on to another such helper with this helper's own
+	// parameters (moveRow -> removeRow)
+	if ms.index == nil || ms.remove == nil {
+		core.InspectNoLits(g.Body, func(n ast.Node) bool {
+			cl, ok := n.(*ast.CallExpr)
+			if !ok {
+				return true
+			}
+			k, cal, _ := m.Callee(cl)
+			if k != core.CallStatic || cal == nil || cal == g {
+				return true
+			}
+			hs := moveSummaryOf(c, cal)
+			if hs == nil {
+				return true
+			}
+			call := cl
+			onAll := func() bool {
+				return passedOnAllPaths(m, g, func(n ast.Node) bool { return n == ast.Node(call) })
+			}
+			arg := func(i int) int {
+				if i < 0 || i >= len(cl.Args) {
+					return -1
+				}
+				return par(cl.Args[i])
+			}
+			if ms.index == nil && hs.index != nil {
+				if e, t, r := arg(hs.index.e), arg(hs.index.t), arg(hs.index.r); e >= 0 && t >= 0 && r >= 0 && onAll() {
+					ms.index = &struct {
+						e, t, r int
+						viaID   bool
+					}{e, t, r, hs.index.viaID}
+				}
+			}
+			if ms.remove == nil && hs.remove != nil {
+				if t, r := arg(hs.remove.t), arg(hs.remove.row); t >= 0 && r >= 0 && onAll() {
+					ms.remove = &struct{ t, row int }{t, r}
+				}
+			}
+			return true
+		})
+	}
 	if ms.index == nil && ms.copy == nil && ms.remove == nil {
 		return nil
 	}
